@@ -189,6 +189,11 @@ func (s *Swarm[T]) handleMessage(ctx context.Context, msg p2p.Message[T]) error 
 	if out != nil {
 		remoteKey := cs.Channel.RemoteKey()
 		srcID := s.config.fingerprinter(&remoteKey)
+		// The channel may have been created by an outbound Tell, whose AcceptKey only compares the
+		// dialled identity: the whitelist has to be consulted for every message that is handed up.
+		if !s.config.whitelist(Addr[T]{ID: srcID, Addr: msg.Src}) {
+			return nil
+		}
 		return s.hub.Deliver(ctx, p2p.Message[Addr[T]]{
 			Src:     Addr[T]{ID: srcID, Addr: msg.Src},
 			Dst:     Addr[T]{ID: s.localID, Addr: msg.Dst},
